@@ -70,6 +70,53 @@ def oracle(ctx, case, steps, ctor_err):
         ctx.fail(slim, f'chirality labels in the result {sorted(have)} (label, hetero neighbours), written {want}')
 
 
+def found_pairs(g):
+    out = {}
+    for n, d in g.nodes(data=True):
+        for tup in d.get('ez_isomer', []) or []:
+            l1, a1, a2, l2, cls = tup
+            out.setdefault((g.nodes[l1].get('element'), g.nodes[l2].get('element')), set()).add(cls)
+    return out
+
+
+def diene_case(rng):
+    """a branched conjugated diene 'X/C=C(/Y)\\C=C/Z' — the marked branch written first, the marked chain last; the mark
+    between the two double bonds serves both of them.  As one fragment, cut at the first or at the second double bond
+    (text split in place, fragments in writing order).  The geometry is the one pysmiles reads from the uncut SMILES
+    (contract P0); mark combinations pysmiles calls conflicting are not generated."""
+    import pysmiles
+    while True:
+        x, y, z = rng.sample(['F', 'Cl', 'Br', 'I'], 3)
+        m = [rng.choice('/\\') for _ in range(4)]
+        plain = f'{x}{m[0]}C=C({m[1]}{y}){m[2]}C=C{m[3]}{z}'
+        try:
+            with lib.quiet():
+                ref = found_pairs(pysmiles.read_smiles(plain, explicit_hydrogen=True))
+        except ValueError:
+            continue
+        break
+    cut = rng.choice(['none', 'first', 'second'])
+    if cut == 'none':
+        s = '{[#A]}.{#A=%s}' % plain
+    elif cut == 'first':
+        s = '{[#A]=[#B]}.{#A=%s%sC=[$],#B=[$]=C(%s%s)%sC=C%s%s}' % (x, m[0], m[1], y, m[2], m[3], z)
+    else:
+        s = '{[#A]=[#B]}.{#A=%s%sC=C(%s%s)%sC=[$],#B=[$]=C%s%s}' % (x, m[0], m[1], y, m[2], m[3], z)
+    return {'kind': 'stereo-diene', 's': s, 'plain': plain, 'cuts': [cut], 'all_atom': True, 'legacy': True,
+            'pairs': sorted([a, b, sorted(c)[0]] for (a, b), c in ref.items())}
+
+
+def diene_oracle(ctx, case, steps, ctor_err):
+    if steps is None or steps[-1]['result'] != 'ok':
+        ctx.fail(dict(case), 'branched conjugated diene rejected')
+        return
+    got = sorted([a, b, sorted(c)[0] if len(c) == 1 else sorted(c)] for (a, b), c in found_pairs(steps[-1]['fine_graph']).items())
+    if got != case['pairs']:
+        diff = [p for p in case['pairs'] if p not in got][:2]
+        ctx.fail(dict(case), f'{case["plain"]}: cis/trans relations differ from the molecule that was written — e.g. {diff} expected, '
+                             f'result has {[p for p in got if p[:2] in [d[:2] for d in diff]]}')
+
+
 def classify(case):
     """E1: a double bond is cut and the final node indices do not follow one left-to-right writing of
     it: the base graph lists its right-hand fragment first, the right-hand fragment is written
@@ -101,9 +148,17 @@ def run(ctx):
             ctx.feature('label-shared-by-single-and-double-descriptor')
     for _ in range(ctx.budget(40, 400)):
         suites.run_resolve_case(ctx, 'stereo-malformed', gen_stereo.malformed_case(rng), oracle=None)
+    rng_d = ctx.rng('diene')
+    for _ in range(ctx.budget(30, 400)):
+        case = diene_case(rng_d)
+        suites.run_resolve_case(ctx, 'stereo-diene', case, oracle=diene_oracle)
+        ctx.feature('branched-diene:' + case['cuts'][0])
 
 
 def corpus_case(ctx, payload):
+    if payload.get('case', {}).get('kind') == 'stereo-diene':
+        suites.run_resolve_case(ctx, 'corpus', payload['case'], oracle=diene_oracle)
+        return
     suites.run_resolve_case(ctx, 'corpus', payload['case'], oracle=oracle)
 
 
@@ -111,7 +166,7 @@ def replay(payload):
     import check
     ctx = check.Ctx(PROP, 'quick', 0, oracle_only=True)
     case = payload['case']
-    suites.run_resolve_case(ctx, 'replay', case, oracle=oracle, compare=False)
+    suites.run_resolve_case(ctx, 'replay', case, oracle=diene_oracle if case.get('kind') == 'stereo-diene' else oracle, compare=False)
     for c, what, fid in ctx.failures:
         print('FAILS:', what, f'[{fid}]' if fid else '')
     print('input:', case.get('s'))
